@@ -1773,12 +1773,10 @@ Proof.
   cbn [nlab nkind ncls nfailed nrunning nexe nins nouts nsin nsout nkids nstart nprov].
   intros [A1 [A2 [A3 [A4 [A5 [A6 [A7 [A8 [A9 [A10 R]]]]]]]]]].
   repeat split; try tauto.
-  - rewrite !map_map. unfold dshell in *. cbn.
-    revert A7. generalize (nins a) (nins b). induction l as [|x r IH]; intros [|y t] H; try discriminate; [reflexivity|].
-    cbn in *. inversion H. f_equal; auto.
-  - rewrite !map_map. unfold dshell in *. cbn.
+  - rewrite !map_map. exact A7.
+  - rewrite !map_map. unfold dshell in *. cbn [set_drcv set_dcon dlab dval drcv].
     revert A8. generalize (nouts a) (nouts b). induction l as [|x r IH]; intros [|y t] H; try discriminate; [reflexivity|].
-    cbn in *. inversion H. f_equal; auto. congruence.
+    cbn [map] in *. injection H as H1 H2 H3 H4. f_equal; [congruence | apply IH; exact H4].
   - rewrite !map_map. exact A9.
   - rewrite !map_map. exact A10.
 Qed.
@@ -1792,7 +1790,7 @@ Definition no_own_conns (n : node) : Prop :=
 Lemma ref_no_own n : no_own_conns (ref n).
 Proof.
   rewrite ref_eq. unfold no_own_conns. cbn [nins nouts nsin nsout].
-  repeat split; intros c H; apply in_map_iff in H; destruct H as [c0 [<- _]]; reflexivity.
+  split; [|split; [|split]]; intros c H; apply in_map_iff in H; destruct H as [c0 [<- _]]; try split; reflexivity.
 Qed.
 Lemma strip_idem n : strip_root (strip_root n) = strip_root n.
 Proof. unfold strip_root. cbn. rewrite !map_map. reflexivity. Qed.
